@@ -324,11 +324,26 @@ def produce(ctx, tape, n_sets):
                 header = {"alg": alg}
                 if mode == "kid":
                     header["kid"] = ks.keys[i].kid
-                for kind in ("compact", "flat", "general"):
+                for kind in ("compact", "flat", "general", "c7797", "c7797-detached", "j7797"):
                     tape.picks = [pick]
                     hdr = copy.deepcopy(header)
+                    if "7797" in kind:
+                        hdr.update({"b64": False, "crit": ["b64"]})
                     try:
-                        if kind == "compact":
+                        if kind in ("c7797", "c7797-detached"):
+                            from joserfc import rfc7797
+                            pl = b"payload" if kind == "c7797" else b"pay.load $"
+                            tok = rfc7797.serialize_compact(hdr, pl, ks, algorithms=J.ALL_ALGS)
+                            seen = json.loads(base64.urlsafe_b64decode(tok.split(".")[0] + "=="))
+                            back = rfc7797.deserialize_compact(tok, pubset, payload=(pl if kind == "c7797-detached" else None), algorithms=J.ALL_ALGS)
+                            if back.payload == pl:
+                                back.payload = b"payload"
+                        elif kind == "j7797":
+                            from joserfc import rfc7797
+                            tok = rfc7797.serialize_json({"protected": hdr}, b"payload", ks, algorithms=J.ALL_ALGS)
+                            seen = dict(json.loads(base64.urlsafe_b64decode(tok["protected"] + "==")), **tok.get("header", {}))
+                            back = rfc7797.deserialize_json(tok, pubset, algorithms=J.ALL_ALGS)
+                        elif kind == "compact":
                             tok = jws.serialize_compact(hdr, b"payload", ks, algorithms=J.ALL_ALGS)
                             seen = json.loads(base64.urlsafe_b64decode(tok.split(".")[0] + "=="))
                             back = jws.deserialize_compact(tok, pubset, algorithms=J.ALL_ALGS)
